@@ -11,8 +11,9 @@ From TarpcV Require Import Base Transport TimerWheel Server ServerMon ServerFuel
      ServerState ServerSim ServerSim2 ServerSim3 ServerSim4 ServerSim5 ServerSim6 ServerSim7.
 
 Record NeedH {T : Type} (o : ostate) (s : @sstate T) : Prop := {
-  (* (i) surely-open => tracked *)
-  nh_open : forall k hr oi, nth_error (s_handlers s) k = Some hr -> nth_error (o_incs o) k = Some oi ->
+  (* (i) surely-open => tracked (while no poll has returned a stream error) *)
+  nh_open : c_err (o_v o) = false ->
+            forall k hr oi, nth_error (s_handlers s) k = Some hr -> nth_error (o_incs o) k = Some oi ->
               oi_wire oi = WOpen -> exists e, In e (s_inflight s) /\ e_h e = h_h hr;
   (* a handler that can still be polled has its entry tracked, or was aborted *)
   nh_live : forall k hr, nth_error (s_handlers s) k = Some hr ->
